@@ -50,7 +50,9 @@ def gen_case(rng, malformed=False):
 
 def gen_case0(rng, malformed=False):
     closure = str(rng.choice(["MOST", "MOSTM", "CONSTANT", "OAAHOC"]))
-    zm = float(rng.uniform(1.5, 30))
+    # measurement heights from a short mast to a tall tower (300 m towers exist): log-uniform, so that any absolute height hidden in the
+    # code (a surface-layer depth, a blending height) is crossed
+    zm = float(rng.uniform(1.5, 30)) if rng.random() < 0.6 else float(10.0 ** rng.uniform(np.log10(1.5), np.log10(400.0)))
     wd = rng.uniform(0, 2 * np.pi)
     sp = float(rng.uniform(0.8, 12))
     um, vm = float(sp * np.cos(wd)), float(sp * np.sin(wd))
